@@ -492,6 +492,10 @@ impl Actor for SessionReader {
     }
 }
 
+#[cfg(slawlor_ractor_verif)]
+#[path = "/verif/hooks/cluster_session.rs"]
+pub mod verif_probe;
+
 #[cfg(test)]
 mod tests {
     use std::io::Cursor;
